@@ -143,6 +143,35 @@ CLAIMS = {
          "delegated_debits_since as a whole (revm Journal internals), build_schedule's saturating sums over TxEnv::max_balance_spending, the "
          "revert / refund / reimbursement call sequence of enforce_reserve, and the end-to-end funding guarantee over real EVM runs.",
     design="5/C13"),
+ "C11": dict(
+    text="Bounded model checking of the facade's own discipline on the real code (ParallelPrecompileState::{balance, sload, set_balance, "
+         "sstore, ensure_healthy, ensure_mutable, record_fault}; revm's EvmInternals a counting ghost): a recorded fault is sticky and no "
+         "journal call follows it; a mutation in a static context is refused with a halt BEFORE any journal call and recorded; otherwise "
+         "exactly one journal call, the journal-aware one for the method (so the access passes IncarnationDb's read tracking); database errors "
+         "become recorded fatal faults. And GrevmExecutor::execute_incarnation's lifecycle: every attempt, successful or failed, finalizes "
+         "the revm journal exactly once before publishing / discarding, so a discarded or retried attempt leaves nothing in the reused EVM.",
+    note=TRUST + "NOT decided: the to_alloy adapter closure (Alloy / revm precompile types), gas charged once, call-frame revert semantics of "
+         "facade writes (revm journal), conflict detection of facade accesses beyond 'they go through the journal' (then C01's read kernels apply).",
+    design="5/C11"),
+ "C05": dict(
+    text="Safety lemmas of termination on the real code, within bounds (no unbounded liveness): no lost notification for the WaitSlot "
+         "protocol with a parker that has no timeout (C17 kernels); no orphaned transaction -- from any invariant state of the dependency "
+         "graph every unfinished transaction completes, every role re-establishes the invariant, committing k-1 releases k parked behind "
+         "its commit boundary, an erroring attempt that does not abort is claimable again (C16 / C04 kernels); with the abort flag set "
+         "next() hands out and claims nothing and the commit loop returns at once.",
+    note=TRUST + "NOT decided: termination of schedules longer than the bounds; the panic path (CancelOnPanic, resume_unwind: needs MIR "
+         "unwind edges); the composition real finality loop || real commit loop (experimental tier, not decided within the time cap, so a "
+         "missing second notification after a two-transaction finality batch -- seed C17-1 -- is NOT detected); OS parker / threads.",
+    design="5/C05"),
+ "C06": dict(
+    text="What a solver reaches of configuration independence, on the real code: the sequential replay closure and the parallel "
+         "executor both query the reserve planner with the GLOBAL transaction index, install the transaction before the handler runs and "
+         "commit / publish only successful outcomes; every hash-set / hash-map iteration in the kernels of C02, C08, C13, C16 is in a "
+         "solver-chosen order and their assertions hold for every order (publish_writes, dependency release, reserve scan, write-set scans).",
+    note=TRUST + "NOT decided: path selection by configuration only (parallel_execute_inner's MIR is dominated by thread::scope / spawn "
+         "plumbing the translator does not cover), equality of two real EVM runs under different worker counts / policies (no encodable "
+         "oracle), that both paths pass the same precompile list / instruction table to build_evm (same fields by reading).",
+    design="5/C06"),
 }
 NA = {}
 props = [json.loads(l) for l in open(os.path.join(V, "properties.jsonl"))]
